@@ -44,6 +44,10 @@ def unjson_array(x):
     return np.array(conv(x))
 
 
+class BudgetExhausted(BaseException):
+    """the widened search of the quick tier has used its wall-clock budget (raised between two evaluated cases)"""
+
+
 class Ctx:
     def __init__(self, prop, tier, seed, replay_mode=False):
         self.prop = prop
@@ -67,6 +71,7 @@ class Ctx:
         self.max_struct_qubits = 0
         self.notes = []
         self.known = load_known_findings(prop)
+        self.deadline = None      # wall-clock limit of the widened search (quick tier only)
         self.replay_mode = replay_mode
         self.quick = tier == "quick"
         self.skip_eval = bool(os.environ.get("VERIF_DEV_NO_EVAL"))   # developer switch only
@@ -74,6 +79,8 @@ class Ctx:
     # ----- counting ---------------------------------------------------------------
     def count(self, family, key=None, nontrivial=True, sample=None):
         """one evaluated case.  key: hashable identity of the case (for distinct counting)."""
+        if self.deadline is not None and time.time() > self.deadline:
+            raise BudgetExhausted()
         self.evaluations += 1
         self.hist[family] = self.hist.get(family, 0) + 1
         if nontrivial and key is not None:
